@@ -1451,4 +1451,27 @@ theorem configWeight_marginal (eta : Rat) (n i : Nat) (hi : i < n) :
   rw [this]
   simp [List.getD_eq_getElem?_getD, hi, flip1]
 
+/-! ### Ket-ket overlap -/
+
+theorem CQ.conj_add (a b : CQ) : (a + b).conj = a.conj + b.conj := by ext <;> simp <;> ring
+theorem CQ.conj_mul (a b : CQ) : (a * b).conj = a.conj * b.conj := by ext <;> simp <;> ring
+theorem CQ.conj_conj (a : CQ) : a.conj.conj = a := by ext <;> simp
+theorem CQ.conj_zero : (0 : CQ).conj = 0 := by ext <;> simp
+theorem CQ.normSq_conj (a : CQ) : a.conj.normSq = a.normSq := by simp [CQ.normSq]
+theorem CQ.normSq_nonneg (a : CQ) : 0 ≤ a.normSq := by
+  unfold CQ.normSq; nlinarith [mul_self_nonneg a.re, mul_self_nonneg a.im]
+
+theorem sumTo_conj (n : Nat) (g : Nat → CQ) : (sumTo n g).conj = sumTo n (fun k => (g k).conj) := by
+  induction n with
+  | zero => simp [sumTo, CQ.conj_zero]
+  | succ n ih => simp only [sumTo, CQ.conj_add, ih]
+
+/-- `⟨b|a⟩ = conj ⟨a|b⟩` for kets of the same dimension. -/
+theorem innerKet_conj (A B : Mat) (h : A.r = B.r) : innerKet B A = (innerKet A B).conj := by
+  unfold innerKet Mat.mul Mat.dagger
+  simp only [h, sumTo_conj]
+  apply sumTo_congr
+  intro k _
+  rw [CQ.conj_mul, CQ.conj_conj, mul_comm]
+
 end Pulser.Measure
